@@ -117,13 +117,15 @@ def net_digest(net):
 
 # ----------------------------------------------------------------------------------------------- request builder
 def rq(rid, src, dst, typ='Voyager', mode='mode 1', spacing=50e9, nch=None, power=None, bw=100e9, bidir=False,
-       slots=None, route=None, strict=True):
+       slots=None, route=None, strict=True, tx_power=None):
     r = {'request-id': str(rid), 'source': f'trx {src}', 'destination': f'trx {dst}', 'src-tp-id': f'trx {src}',
          'dst-tp-id': f'trx {dst}', 'bidirectional': bidir,
          'path-constraints': {'te-bandwidth': {
              'technology': 'flexi-grid', 'trx_type': typ, 'trx_mode': mode,
              'effective-freq-slot': [{'N': a, 'M': b} for a, b in (slots or [(None, None)])], 'spacing': spacing,
              'max-nb-of-channel': nch, 'output-power': power, 'path_bandwidth': bw}}}
+    if tx_power is not None:
+        r['path-constraints']['te-bandwidth']['tx_power'] = tx_power
     if route:
         r['explicit-route-objects'] = {'route-object-include-exclude': [
             {'explicit-route-usage': 'route-include-ero', 'index': k,
@@ -145,12 +147,70 @@ TRX = {'meshV2+island': [('Voyager', 'mode 1', 50e9), ('Voyager', None, 75e9), (
                         ('VerifHard', 'h1', 50e9), ('VerifDense', 'd1', 25e9), ('Voyager', None, 30e9)]}
 
 
+def include_candidates(bench):
+    """every ROADM / amplifier / fused node the topology file names (both directions of every link): an include list
+    drawn from them is satisfiable, unsatisfiable (wrong direction, impossible order) or explicit, as it comes"""
+    return [e['uid'] for e in _topo(bench)['elements'] if e['type'] in ('Roadm', 'Edfa', 'Fused')]
+
+
+def variants(base, rng=None):
+    """requests that differ from `base` in exactly ONE attribute the user can tell apart, by a small amount: they are
+    different requests (never to be merged, each reported with its own figures) that routing / aggregation shortcuts
+    keyed on too few attributes would confuse"""
+    out = []
+
+    def v(tag, f):
+        r = copy.deepcopy(base)
+        r['request-id'] = f'{base["request-id"]}~{tag}'
+        f(r, r['path-constraints']['te-bandwidth'])
+        out.append(r)
+    v('txp', lambda r, tb: tb.update(tx_power=(tb.get('tx_power') or 1e-4) * 0.01))        # < 0.1 mW apart, 20 dB apart
+    v('pow', lambda r, tb: tb.update({'output-power': (tb.get('output-power') or 1e-3) + 2e-5}))
+    v('bidir', lambda r, tb: r.update(bidirectional=not r['bidirectional']))
+    v('nch', lambda r, tb: tb.update({'max-nb-of-channel': (tb.get('max-nb-of-channel') or 61) - 1}))
+    v('spacing', lambda r, tb: tb.update(spacing=tb['spacing'] + 12.5e9))
+    ero = base.get('explicit-route-objects', {}).get('route-object-include-exclude')
+    if ero:
+        def flip(r, tb):
+            for e in r['explicit-route-objects']['route-object-include-exclude']:
+                h = e['num-unnum-hop']
+                h['hop-type'] = 'LOOSE' if h['hop-type'] == 'STRICT' else 'STRICT'
+        v('hop', flip)
+        v('noinc', lambda r, tb: r.pop('explicit-route-objects'))
+    if rng is not None:
+        return [rng.choice(out)]
+    return out
+
+
+def near_identical(bench):
+    """batches made of a base request followed by its one-attribute variants: a plain forced-mode request with an
+    explicit transceiver power, a STRICT include list no route can honour (an amplifier of the opposite direction /
+    nodes in an impossible order), a STRICT include list that can be honoured, an automatic-mode bidirectional one"""
+    if bench.startswith('meshV2'):
+        bases = [rq('A', 'Lannion_CAS', 'Lorient_KMA', tx_power=1e-4, power=1e-3, bw=200e9),
+                 rq('B', 'Lorient_KMA', 'Lannion_CAS', route=['west edfa in Lorient_KMA to Loudeac'], bw=100e9),
+                 rq('C', 'Brest_KLA', 'Rennes_STA', route=['roadm Vannes_KBE'], mode=None, spacing=75e9, bidir=True,
+                    bw=300e9)]
+    else:
+        bases = [rq('A', 'a', 'g', typ='Voyager', mode='mode 1', tx_power=1e-4, power=1e-3, bw=200e9),
+                 rq('B', 'a', 'h', route=['roadm g', 'roadm a', 'roadm g'], bw=100e9),
+                 rq('C', 'f', 'b', route=['roadm c'], mode=None, spacing=75e9, bidir=True, bw=300e9)]
+    return [(f'near-identical-{b["request-id"]}', loadable(bench, [b] + variants(b))) for b in bases]
+
+
 def random_batch(rng, bench, tag, n):
     """seeded batch: every transponder situation of the bench library, free / fixed / multi / insufficient slots,
-    uni- and bidirectional, loose / strict include constraints, identical copies (same direction flag) to be aggregated"""
+    uni- and bidirectional, loose / strict include lists over every node of the topology file, identical copies to be
+    aggregated and one-attribute variants of earlier requests that must NOT be"""
     sites, trx = SITES[bench], TRX[bench]
+    inc = include_candidates(bench)
     out = []
     for i in range(n):
+        if out and rng.random() < 0.2:
+            r = variants(rng.choice(out), rng)[0]
+            r['request-id'] = f'{tag}{i}'
+            out.append(r)
+            continue
         if out and rng.random() < 0.25:
             r = copy.deepcopy(rng.choice(out))
             r['request-id'] = f'{tag}{i}'
@@ -166,7 +226,7 @@ def random_batch(rng, bench, tag, n):
         slots = {'free': None, 'fixNM': [(n0, nb * pcm)], 'two': [(n0, nb * pcm), (n0 + 100, nb * pcm)],
                  'fixM': [(None, nb * pcm)], 'small': [(None, pcm)]}[kind]
         bw = {'two': 2 * nb, 'small': 9}.get(kind, nb) * 100e9
-        route = [f'roadm {rng.choice(sites)}'] if rng.random() < 0.15 else None
+        route = rng.sample(inc, rng.choice([1, 1, 2])) if rng.random() < 0.25 else None
         out.append(rq(f'{tag}{i}', s, d, typ=typ, mode=mode, spacing=spacing, bw=bw, bidir=rng.random() < 0.4,
                       slots=slots, route=route, strict=rng.random() < 0.5,
                       power=rng.choice([None, 0.001, 0.0015848931924611134])))
@@ -221,7 +281,7 @@ def input_table(data, eq):
             res = [r['source'], r['destination'], tb['trx_type'], tb.get('trx_mode'), tb['spacing'],
                    tb.get('max-nb-of-channel'), p, tb.get('tx_power'),
                    [(e['num-unnum-hop']['node-id'], e['num-unnum-hop']['hop-type']) for e in ero]]
-        key = json.dumps([res, syn], sort_keys=True, default=repr)
+        key = json.dumps([res, syn, bool(r['bidirectional'])], sort_keys=True, default=repr)
         out.append(dict(id=rid, bw=cw(tb.get('path_bandwidth', 0)), key=key, bidir=bool(r['bidirectional']),
                         type=tb['trx_type'], mode=tb.get('trx_mode') or '', power=nw(p), powerudbm=udb(10 * math.log10(p * 1e3))))
     return out
@@ -247,7 +307,8 @@ class PlanRecorder(contextlib.AbstractContextManager):
        routing      -> the computed route of every request (uid list), in table order
        propagation  -> per request and direction, the receiver's figures at the return of its own propagation
                        and the mode the automatic selection returned
-       assignment   -> per request the OMS its path (both directions) uses, and N / M / blocking reason at the return"""
+       assignment   -> per request the OMS its path (both directions) uses, and N / M / blocking reason at the return
+       every stage  -> the blocking reason found on the request when a stage starts / returns (`raised`, in order)"""
 
     def __init__(self):
         self.order = []        # id(rq) in table order
@@ -258,6 +319,7 @@ class PlanRecorder(contextlib.AbstractContextManager):
         self.oms = {}
         self.nm = {}
         self.reason = {}
+        self.raised = {}       # id(rq) -> blocking reasons in the order they were first observed on the request
         self._saved = []
         self._keep = []
 
@@ -269,14 +331,23 @@ class PlanRecorder(contextlib.AbstractContextManager):
         o_prop, o_opt, o_route, o_assign = R.propagate, R.propagate_and_optimize_mode, W.compute_path_dsjctn, \
             W.pth_assign_spectrum
 
+        def see(req):
+            r = getattr(req, 'blocking_reason', '') or ''
+            lst = rec.raised.setdefault(id(req), [])
+            if r and (not lst or lst[-1] != r):
+                lst.append(r)
+
         def propagate(path, req, equipment):
+            see(req)
             out = o_prop(path, req, equipment)
+            see(req)
             if path:
                 (rec.fwd if path[0].uid == req.source else rec.rev)[id(req)] = rx_figures(path[-1])
             return out
 
         def propagate_and_optimize_mode(path, req, equipment):
             out = o_opt(path, req, equipment)
+            see(req)
             pth, mode = out
             rec.sel[id(req)] = mode['format'] if mode else ''
             if pth:
@@ -289,16 +360,19 @@ class PlanRecorder(contextlib.AbstractContextManager):
             rec._keep = list(pathreqlist)
             for r, p in zip(pathreqlist, out):
                 rec.route[id(r)] = [e.uid for e in p]
+                see(r)
             return out
 
         def pth_assign_spectrum(pths, rqs, oms_list, rpths, policy='first_fit'):
             for p, r, rp in zip(pths, rqs, rpths):
+                see(r)
                 rec.oms[id(r)] = sorted(build_path_oms_id_list(p + rp)) if p else []
             out = o_assign(pths, rqs, oms_list, rpths, policy=policy)
             for r in rqs:
                 n, m = getattr(r, 'N', None), getattr(r, 'M', None)
                 rec.nm[id(r)] = [[NONE if a is None else int(a), NONE if b is None else int(b)]
                                  for a, b in zip(n or [], m or [])]
+                see(r)
                 rec.reason[id(r)] = getattr(r, 'blocking_reason', '') or ''
             return out
 
@@ -466,7 +540,9 @@ def run_batch(bench, data, name, want_csv=True):
         first = members[0] if members else dict(type='', mode='', power=NONE, powerudbm=NONE)
         sel = rec.sel.get(k)
         mode = sel if sel is not None else first['mode']
-        o = dict(route=rec.route.get(k, []), reason=rec.reason.get(k, ''), nm=rec.nm.get(k, []),
+        raised = list(rec.raised.get(k, []))
+        o = dict(route=rec.route.get(k, []), reason=raised[0] if raised else '', raised=raised,
+                 finalReason=rec.reason.get(k, ''), nm=rec.nm.get(k, []),
                  bidir=any(m['bidir'] for m in members), allbidir=all(m['bidir'] for m in members),
                  type=first['type'], mode=mode, auto=sel is not None,
                  hasRx=k in rec.fwd, rx=rec.fwd.get(k, dict(NO_RX)), hasRev=k in rec.rev, rxRev=rec.rev.get(k, dict(NO_RX)),
@@ -476,6 +552,30 @@ def run_batch(bench, data, name, want_csv=True):
         run.entries.append(dict(o=o, e=e, row=row))
     run.nrows = len(rows)
     return run
+
+
+def units_by_key(inputs, data):
+    """requests that MAY be computed / reported together: identical for the user (same key) or tied by a
+    synchronization vector.  Anything else must come out as if computed alone."""
+    parent = {r['id']: r['id'] for r in inputs}
+
+    def find(x):
+        while parent[x] != x:
+            parent[x] = parent[parent[x]]
+            x = parent[x]
+        return x
+    by_key = {}
+    for r in inputs:
+        by_key.setdefault(r['key'], []).append(r['id'])
+    groups = list(by_key.values()) + [s['svec']['request-id-number'] for s in data.get('synchronization', [])]
+    for g in groups:
+        g = [x for x in g if x in parent]
+        for x in g[1:]:
+            parent[find(x)] = find(g[0])
+    out = {}
+    for r in inputs:
+        out.setdefault(find(r['id']), []).append(r['id'])
+    return list(out.values())
 
 
 EMPTY_ROW = dict(idstr='', src='', dst='', bw=NONE, passf='', nbtsp=NONE, cost=NONE, type='', mode='', bitrate=NONE,
